@@ -335,7 +335,8 @@ def judge(ctx, res, known_stream: bool = False) -> Optional[Dict[str, Any]]:
         if s.get("holds") is False and (not excluded or known_stream):
             viol = {"what": s["why"], "observed": {"column_type": r["ty"], "emitted": r["lines"] + [r["fill"]], "rows": s.get("rows")}}
         # tie of evalPy to CPython, of evalC to the observed values
-        if not known_stream:
+        # (Python's float % is only approximated by the driver's Num instance; it occurs in excluded cells only)
+        if not known_stream and not (excluded and "Mod" in X.ops_of(form)):
             for k, (row, d) in enumerate(zip(s.get("rows", []), res["desc"])):
                 cp = cpython_value(form, level, d)
                 if (row["cpy"] or None) != cp and pow_safe(form):
